@@ -7,8 +7,9 @@
    each of its dependencies returned nil - exactly what Layer 0 proves of the scheduler
    (C01_order_once, C07_downstream) for every DAG, concurrency limit and interleaving.
 
-   Proved for every flow with unique providers (what cff's validation guarantees; the
-   boolean unique_providers_b is re-evaluated on every generated flow), every scenario
+   Proved for every flow with unique providers - which every flow accepted by the validator
+   model of C14 has (C02_accepted_flows_qualify; unique_providers_b is also re-evaluated on
+   every generated flow) -, every scenario
    (what each user function does) and every such execution:
      - a job does the same thing - same calls with the same arguments, same assignments,
        same result - in every execution in which it runs (C02_schedule_independent), so
@@ -24,7 +25,7 @@
    Tie to the code: (1) the Dependencies lists parsed from every generated *_gen.go file
    must equal jdeps; (2) every execution of the generated programs must make the calls,
    return the error and leave the results the model computes. *)
-From CffVerif Require Import FlowOpModel FlowOpProofs.
+From CffVerif Require Import FlowOpModel FlowOpProofs ValidateModel FlowBridge.
 
 Theorem C02_schedule_independent :
   forall f sc, unique_providers f ->
@@ -68,6 +69,14 @@ Theorem C02_variable_independent :
     slot (xstore e1) t = slot (xstore e2) t.
 Proof. exact slot_confluent. Qed.
 Print Assumptions C02_variable_independent.
+
+(* "for every Flow that cff accepts": the validator model of C14 guarantees the hypothesis,
+   whatever the decoration (FallbackWith, error results, Invoke) of the tasks *)
+Theorem C02_accepted_flows_qualify :
+  forall (f : ValidateModel.flow) (g : fflow), accepts f = true ->
+    map kouts (gtasks g) = map ValidateModel.touts (ftasks f) -> unique_providers g.
+Proof. exact accepted_unique_providers_gen. Qed.
+Print Assumptions C02_accepted_flows_qualify.
 
 (* the task function is called only after its predicate returned true *)
 Theorem C02_predicate_gate :
